@@ -23,6 +23,7 @@ import (
 	sdk "github.com/cosmos/cosmos-sdk/types"
 	banktypes "github.com/cosmos/cosmos-sdk/x/bank/types"
 
+	"github.com/haqq-network/haqq/x/feemarket"
 	feemarkettypes "github.com/haqq-network/haqq/x/feemarket/types"
 
 	"verif/harness/engine"
@@ -362,9 +363,24 @@ func histWorker(res *engine.Result, tier string, shard, n int) {
 		w := fixture(fx.maxGas, &fm)
 		k := w.App.FeeMarketKeeper
 		var ops []engine.Op
+		type gasOpX struct {
+			gasOp
+			reimport bool
+		}
+		var gx []gasOpX
 		for _, g := range gasOps {
+			gx = append(gx, gasOpX{g, false})
+		}
+		// the chain is exported after the block and restarted from the export before the next one: the
+		// parent gas figure travels in the genesis document
+		gx = append(gx, gasOpX{gasOp{100, 100}, true}, gasOpX{gasOp{51, 0}, true})
+		for _, g := range gx {
 			g := g
-			ops = append(ops, engine.Op{Name: fmt.Sprintf("block(gw=%d,gu=%d)", g.gw, g.gu), Apply: func(w *world.World, p []string, res *engine.Result) string {
+			name := fmt.Sprintf("block(gw=%d,gu=%d)", g.gw, g.gu)
+			if g.reimport {
+				name += "+export/import"
+			}
+			ops = append(ops, engine.Op{Name: name, Apply: func(w *world.World, p []string, res *engine.Result) string {
 				ctx := w.App.BaseApp.VerifDeliverCtx()
 				pre := k.GetParams(ctx)
 				base := pre.BaseFee.BigInt()
@@ -372,7 +388,16 @@ func histWorker(res *engine.Result, tier string, shard, n int) {
 					return "err:gaswanted"
 				}
 				ctx.BlockGasMeter().ConsumeGas(g.gu, "verif")
-				w.VirtualNextBlock(6*time.Second, nil, nil)
+				if g.reimport {
+					w.VirtualEndBlock()
+					ictx := w.App.BaseApp.VerifDeliverCtx()
+					gs := feemarket.ExportGenesis(ictx, k)
+					k.SetBlockGasWanted(ictx, 0) // what a fresh store holds
+					feemarket.InitGenesis(ictx, k, *gs)
+					w.VirtualBeginBlock(6*time.Second, nil, nil)
+				} else {
+					w.VirtualNextBlock(6*time.Second, nil, nil)
+				}
 				ctx = w.App.BaseApp.VerifDeliverCtx()
 				res.Evaluations++
 				// reference
@@ -556,7 +581,7 @@ func Run(tier string) int {
 	res.Sample(map[string]any{"fn": "base=100 limit=100 elasticity=2 denom=8 mgp=0 g in {0,1,49,50,51,100,2^64-1}", "history": []string{"fixture=base1000-mgp900-lim100", "block(gw=100,gu=0)", "block(gw=0,gu=0)", "block(gw=100,gu=100)"}})
 	return engine.Finish(res, engine.Meta{
 		Property: Prop, Tier: tier, Level: "model_checking", Start: start,
-		Rule:   "fn: full cartesian grid of boundary values through the real CalculateBaseFee vs a math/big reference, monotone on adjacent g; endblock: full (gasWanted,gasUsed,multiplier) grid through the real EndBlock; history: all sequences <= depth of blocks with chosen gas figures (incl. declared gas above the block gas limit) and a governance change raising the minimum gas price above the live base fee, through real EndBlock/BeginBlock on 4 parameter fixtures (one with a base fee beyond 2^63); real-tx: all sequences <= 3 (thorough 4) of blocks carrying real Cosmos / Ethereum transactions. Non-trivial = grid point off the g=T=unchanged axis / block with distinct (base, g)",
+		Rule:   "fn: full cartesian grid of boundary values through the real CalculateBaseFee vs a math/big reference, monotone on adjacent g; endblock: full (gasWanted,gasUsed,multiplier) grid through the real EndBlock; history: all sequences <= depth of blocks with chosen gas figures (incl. declared gas above the block gas limit) a governance change raising the minimum gas price above the live base fee, and blocks followed by an export / import of the module's genesis, through real EndBlock/BeginBlock on 4 parameter fixtures (one with a base fee beyond 2^63); real-tx: all sequences <= 3 (thorough 4) of blocks carrying real Cosmos / Ethereum transactions. Non-trivial = grid point off the g=T=unchanged axis / block with distinct (base, g)",
 		Bounds: map[string]any{"history_depth": map[string]int{"quick": 3, "thorough": 6}},
 		Assumptions: []string{
 			"monotonicity is required only where base >= floor(minGasPrice): below it the statement's own clauses are incompatible with monotonicity (recorded as an observation)",
